@@ -212,6 +212,7 @@ func runC39(c *Ctx) {
 		type facts struct {
 			header, b64std, gcm, aesKey bool
 			splitter                    int64
+			headerCompared              bool // a prefix/equality test against the whole HEADER (not a shorter identifier)
 		}
 		get := func(fn *ssa.Function) facts {
 			f := facts{splitter: -1}
@@ -235,6 +236,13 @@ func runC39(c *Ctx) {
 					return
 				}
 				switch calleeName(cc) {
+				case "bytes.HasPrefix", "bytes.Equal", "strings.HasPrefix":
+					if len(cc.Args) == 2 && derivesFrom(cc.Args[1], 4, func(v ssa.Value) bool {
+						g, isG := v.(*ssa.Global)
+						return isG && g.Name() == "HEADER"
+					}) {
+						f.headerCompared = true
+					}
 				case "crypto/cipher.NewGCM":
 					f.gcm = true
 				case "crypto/aes.NewCipher":
@@ -255,6 +263,8 @@ func runC39(c *Ctx) {
 			return f
 		}
 		fe, fd := get(enc), get(dec)
+		c.CheckAt("framing", "header-compared-whole@Decrypt", c.P.Pos(dec.Pos()), fd.headerCompared,
+			"Decrypt skips len(HEADER) bytes but does not compare them with HEADER itself (identifier + version byte): AES-GCM is run without associated data, so a header byte that is skipped unchecked can be altered freely — data with a foreign version byte is accepted")
 		c.CheckAt("framing", "Encrypt≍Decrypt", c.P.Pos(dec.Pos()), fe.header && fd.header && fe.b64std && fd.b64std && fe.gcm && fd.gcm && fe.aesKey && fd.aesKey && fe.splitter == fd.splitter && fe.splitter >= 0,
 			fmt.Sprintf("encoder and decoder must agree on header, splitter byte, base64 alphabet and AES-GCM over the cipher's key; encrypt=%+v decrypt=%+v", fe, fd))
 	}
